@@ -122,7 +122,11 @@ func replayWitness(repo, hdir string, names []string, wpath string, v *Violation
 			r := recover()
 			switch r := r.(type) {
 			case nil:
-				done <- "completed"
+				if ex := vfAllocExceeded(); ex != "" {
+					done <- ex
+				} else {
+					done <- "completed"
+				}
 			case vfAssumeFailed:
 				done <- "assume-failed"
 			case vfExhausted:
@@ -205,8 +209,12 @@ func replayWitness(repo, hdir string, names []string, wpath string, v *Violation
 		if res == "assert "+v.ID {
 			return "reproduced", res
 		}
-	case "panic", "alloc":
+	case "panic":
 		if strings.HasPrefix(res, "panic") {
+			return "reproduced", res
+		}
+	case "alloc":
+		if strings.HasPrefix(res, "panic") || strings.HasPrefix(res, "alloc-exceeded") {
 			return "reproduced", res
 		}
 	case "deadlock", "unwind":
@@ -344,8 +352,12 @@ func cmdCheck(args []string) int {
 				problems = append(problems, fmt.Sprintf("%s: reachability witness %q not reached (vacuous?)", r.Harness, w))
 			}
 		}
+		confirmedKey := map[string]bool{}
 		for i := range r.Violations {
 			v := &r.Violations[i]
+			if confirmedKey[v.Kind+"|"+v.ID] {
+				continue // this assertion already has a natively confirmed witness
+			}
 			wb, _ := json.MarshalIndent(v, "", " ")
 			h := sha1.Sum(wb)
 			dir := filepath.Join(verifRoot(), "replays", prop)
@@ -360,6 +372,7 @@ func cmdCheck(args []string) int {
 				os.Remove(wpath)
 				continue
 			}
+			confirmedKey[v.Kind+"|"+v.ID] = true
 			isKnown := false
 			for _, k := range known {
 				if k.Status == "known" && matchKnown(k, prop, v) {
@@ -374,6 +387,7 @@ func cmdCheck(args []string) int {
 				continue
 			}
 			v.Extra = map[string]string{"replay": wpath}
+			confirmedKey[v.Kind+"|"+v.ID] = true
 			confirmed = append(confirmed, *v)
 		}
 	}
